@@ -476,6 +476,18 @@ func (t *Table) Clear() {
 	t.Data = map[string]map[string]*types.Item{}
 }
 
+// validateIndexKeys checks the item's secondary index key attributes, so that
+// a type mismatch is reported before anything is written
+func (t *Table) validateIndexKeys(item map[string]*types.Item) error {
+	for _, index := range t.Indexes {
+		if _, err := index.keySchema.GetKey(t.AttributesDef, item); err != nil {
+			return types.NewError("ValidationException", err.Error(), nil)
+		}
+	}
+
+	return nil
+}
+
 // Put puts items into table
 func (t *Table) Put(input *types.PutItemInput) (map[string]*types.Item, error) {
 	item := copyItem(input.Item)
@@ -483,6 +495,10 @@ func (t *Table) Put(input *types.PutItemInput) (map[string]*types.Item, error) {
 	key, err := t.KeySchema.GetKey(t.AttributesDef, input.Item)
 	if err != nil {
 		return item, types.NewError("ValidationException", err.Error(), nil)
+	}
+
+	if err := t.validateIndexKeys(item); err != nil {
+		return nil, err
 	}
 
 	// support conditional writes
@@ -561,7 +577,9 @@ func (t *Table) Update(input *types.UpdateItemInput) (map[string]*types.Item, er
 		item = copyItem(input.Key)
 	}
 
-	oldItem := copyItem(item)
+	oldItem := item
+	// the update is applied to a copy, the stored item is replaced only when everything succeeded
+	item = copyItem(item)
 
 	err = t.interpreterUpdate(interpreter.UpdateInput{
 		TableName:  t.Name,
@@ -571,6 +589,10 @@ func (t *Table) Update(input *types.UpdateItemInput) (map[string]*types.Item, er
 		Aliases:    input.ExpressionAttributeNames,
 	})
 	if err != nil {
+		return nil, err
+	}
+
+	if err := t.validateIndexKeys(item); err != nil {
 		return nil, err
 	}
 
